@@ -516,37 +516,119 @@ func isRead(ct *extract.Claim, field string) bool {
 	return false
 }
 
-// showcasePairs: the pairs behind the suspected defects of DESIGN.md section 6 row 4, built explicitly so that the
-// quorum replay shows a meaningful effect (they are ordinary pairs: nothing is assumed about their hashes).
-func showcasePairs(tab *extract.Table, r *lib.Rand) []pairT {
+// ---------------------------------------------------------------- corpus (run first)
+//
+// corpus/C03/*.json: pairs of claims that used to collide (the findings C03-1/2/3 before their fix, and pairs from
+// seeded changes).  Format: {"kind":"pair","type":"MsgBridgeCallClaim","what":"...","a":{field:value...},"b":{...}}
+// with every field of the struct given: numbers and Ints as decimal strings, lists as arrays, members as
+// [{"power":"1","addr":"0x.."}].  They are ordinary pairs: nothing is assumed about their hashes; on a tree where
+// they collide again they are reported like any other collision and replayed through a real quorum.
+type corpusEntry struct {
+	Kind string                 `json:"kind"`
+	Type string                 `json:"type"`
+	What string                 `json:"what"`
+	A    map[string]interface{} `json:"a"`
+	B    map[string]interface{} `json:"b"`
+}
+
+func claimFromJSON(ct *extract.Claim, m map[string]interface{}) (c crosschaintypes.ExternalClaim, err error) {
+	defer func() {
+		if r := recover(); r != nil {
+			err = fmt.Errorf("corpus claim: %v", r)
+		}
+	}()
+	c = newMsg(ct.Go)
+	str := func(v interface{}) string { return fmt.Sprint(v) }
+	bigOf := func(v interface{}) sdkmath.Int {
+		z, ok := new(big.Int).SetString(str(v), 10)
+		if !ok {
+			panic("bad integer " + str(v))
+		}
+		return sdkmath.NewIntFromBigInt(z)
+	}
+	for _, f := range ct.Fields {
+		v, ok := m[f.Name]
+		if !ok {
+			continue // a field added after the corpus entry was written keeps its zero value
+		}
+		fv := fieldOf(c, f.Name)
+		switch f.Kind {
+		case "u64":
+			n, e := strconv.ParseUint(str(v), 10, 64)
+			if e != nil {
+				panic(e)
+			}
+			fv.SetUint(n)
+		case "str":
+			fv.SetString(str(v))
+		case "bool":
+			fv.SetBool(v.(bool))
+		case "int":
+			fv.Set(reflect.ValueOf(bigOf(v)))
+		case "strlist":
+			l := []string{}
+			for _, e := range v.([]interface{}) {
+				l = append(l, str(e))
+			}
+			fv.Set(reflect.ValueOf(l))
+		case "intlist":
+			l := []sdkmath.Int{}
+			for _, e := range v.([]interface{}) {
+				l = append(l, bigOf(e))
+			}
+			fv.Set(reflect.ValueOf(l))
+		case "members":
+			l := []crosschaintypes.BridgeValidator{}
+			for _, e := range v.([]interface{}) {
+				mm := e.(map[string]interface{})
+				p, e2 := strconv.ParseUint(str(mm["power"]), 10, 64)
+				if e2 != nil {
+					panic(e2)
+				}
+				l = append(l, crosschaintypes.BridgeValidator{Power: p, ExternalAddress: str(mm["addr"])})
+			}
+			fv.Set(reflect.ValueOf(l))
+		}
+	}
+	return c, nil
+}
+
+func corpusPairs(rep *lib.Report, tab *extract.Table) []pairT {
+	dir := os.Getenv("VERIF_CORPUS")
+	if dir == "" {
+		return nil
+	}
+	files, _ := os.ReadDir(dir)
 	var out []pairT
-	g := &gen{r: r, chain: "eth"}
-	set := func(m crosschaintypes.ExternalClaim, name string, v interface{}) bool {
-		f := reflect.ValueOf(m).Elem().FieldByName(name)
-		if !f.IsValid() {
-			return false
+	for _, f := range files {
+		bz, err := os.ReadFile(dir + "/" + f.Name())
+		if err != nil || !strings.HasSuffix(f.Name(), ".json") {
+			continue
 		}
-		f.Set(reflect.ValueOf(v))
-		return true
-	}
-	if ct := tab.Get("MsgBridgeTokenClaim"); ct != nil {
-		a := g.claim(ct)
-		ok := set(a, "Decimals", uint64(18)) && set(a, "Name", "Token") && set(a, "Symbol", "Wrapped/FX")
-		b := clone(ct, a)
-		ok = ok && set(b, "Name", "Token/Wrapped") && set(b, "Symbol", "FX")
-		if ok {
-			out = append(out, pairT{ct: ct, a: a, b: b, kind: "split:Name/Symbol(showcase)"})
+		var e corpusEntry
+		if json.Unmarshal(bz, &e) != nil || e.Kind != "pair" {
+			continue
 		}
-	}
-	if ct := tab.Get("MsgBridgeCallClaim"); ct != nil {
-		a := g.claim(ct)
-		ok := set(a, "TokenContracts", []string{}) && set(a, "Amounts", []sdkmath.Int{}) && set(a, "Memo", "") &&
-			set(a, "Value", sdkmath.ZeroInt())
-		b := clone(ct, a)
-		ok = ok && set(b, "Memo", hex.EncodeToString(crosschaintypes.MemoSendCallTo.Bytes()))
-		if ok {
-			out = append(out, pairT{ct: ct, a: a, b: b, kind: "Memo(showcase)"})
+		ct := tab.Get(e.Type)
+		if ct == nil {
+			continue
 		}
+		a, err1 := claimFromJSON(ct, e.A)
+		b, err2 := claimFromJSON(ct, e.B)
+		if err1 != nil || err2 != nil {
+			rep.Notes = append(rep.Notes, fmt.Sprintf("corpus entry %s unreadable: %v %v", f.Name(), err1, err2))
+			continue
+		}
+		// addresses that depend on the configured bech32 prefix are filled in here
+		for _, c := range []crosschaintypes.ExternalClaim{a, b} {
+			for _, fn := range []string{"BridgerAddress", "Receiver"} {
+				if fld := ct.Field(fn); fld != nil && fld.Class == "bech32" && fieldOf(c, fn).String() == "" {
+					fieldOf(c, fn).SetString(sdk.AccAddress(bytes.Repeat([]byte{9}, 20)).String())
+				}
+			}
+		}
+		rep.Count("corpus-pair")
+		out = append(out, pairT{ct: ct, a: a, b: b, kind: "corpus:" + strings.TrimSuffix(f.Name(), ".json")})
 	}
 	return out
 }
@@ -659,7 +741,7 @@ func main() {
 
 	// ---------------- phase 2
 	var pairs []pairT
-	pairs = append(pairs, showcasePairs(tab, r)...)
+	pairs = append(pairs, corpusPairs(rep, tab)...)
 	for _, ct := range tab.Claims {
 		for i := 0; i < pairBases; i++ {
 			g := &gen{r: r, chain: evmChains[r.Intn(len(evmChains))], big: r.Chance(8)}
@@ -717,6 +799,25 @@ func main() {
 					v := clone(ct, base)
 					fieldOf(v, f.Name).Set(reflect.ValueOf(sdkmath.NewIntFromBigInt(new(big.Int).Add(cur.BigInt(), new(big.Int).Lsh(big.NewInt(1), sh)))))
 					pairs = append(pairs, pairT{ct: ct, a: base, b: v, kind: fmt.Sprintf("%s+2^%d", f.Name, sh)})
+				}
+			}
+			// a list of numbers printed without separators would confuse [1 23] and [12 3]
+			for _, f := range ct.Fields {
+				if f.Kind != "intlist" || extract.IsIrrelevant(f.Name) {
+					continue
+				}
+				for _, sp := range [][4]int64{{1, 23, 12, 3}, {1005, 1, 100, 51}} {
+					a, b := clone(ct, base), clone(ct, base)
+					for _, g2 := range ct.Fields { // the companion address list gets two entries as well
+						if g2.Kind == "strlist" {
+							two := []string{g.addr(), g.addr()}
+							fieldOf(a, g2.Name).Set(reflect.ValueOf(two))
+							fieldOf(b, g2.Name).Set(reflect.ValueOf(append([]string(nil), two...)))
+						}
+					}
+					fieldOf(a, f.Name).Set(reflect.ValueOf([]sdkmath.Int{sdkmath.NewInt(sp[0]), sdkmath.NewInt(sp[1])}))
+					fieldOf(b, f.Name).Set(reflect.ValueOf([]sdkmath.Int{sdkmath.NewInt(sp[2]), sdkmath.NewInt(sp[3])}))
+					pairs = append(pairs, pairT{ct: ct, a: a, b: b, kind: "listdigits:" + f.Name})
 				}
 			}
 			// both lists of a bridge call grow together
@@ -818,6 +919,12 @@ func main() {
 		nontriv := p.valid && !sameRel
 		rep.Case("pair|"+p.ct.Go+"|"+p.kind+"|"+canon(p.ct, p.a, relevantOnly)+"|"+canon(p.ct, p.b, relevantOnly), nontriv)
 		rep.Count(fmt.Sprintf("phase2:valid=%v:collide=%v", p.valid, same))
+		if strings.HasPrefix(p.kind, "corpus:") {
+			rep.Count(fmt.Sprintf("corpus-pair:valid=%v:collide=%v", p.valid, same))
+			if !p.valid {
+				rep.Notes = append(rep.Notes, p.kind+": a claim of this corpus pair no longer passes ValidateBasic (entry is stale)")
+			}
+		}
 		if p.ct.Err == "" {
 			pitems = append(pitems, fmt.Sprintf("mk_pair_case Gen_%s %s %s %s %s", p.ct.Short, coqClaim(p.ct, p.a), coqClaim(p.ct, p.b), lib.Bool(same), lib.Bool(sameRel)))
 		}
